@@ -10,13 +10,13 @@ FUNCTIONS = ['Netlist.__init__', 'parse_yaml_netlist/modules/module/center/aspec
              'Rectangle.__init__', 'Module.__init__', 'Module.setup', 'Module._read_region_area', 'Module.area', 'Module.area_rectangles',
              'Module.calculate_center_from_rectangles', 'Netlist._create_rectangles', 'Netlist.rectangles', 'Netlist.fixed_rectangles',
              'HyperEdge.wire_length', 'Netlist.wire_length', 'Point arithmetic']
-BOUNDS = {'quick': 'the 6 document structures of C04 (all numbers symbolic); for each of 14 defect classes, the defect injected at every '
+BOUNDS = {'quick': 'the 6 document structures of C04 (all numbers symbolic); for each of 18 defect classes, the defect injected at every '
                    'position of every structure where it applies',
           'thorough': '10 structures'}
 ASSUMPTIONS = ['R model; one axis of rectangles symbolic', 'overlapping hard rectangles overlap by a clear margin (>= 0.05 x 1)']
 NOT_DECIDED = ['overlaps below the area tolerance', 'text-level YAML errors']
 MUST_REACH = ['well-formed', 'defect-rejected']
-DEFECTS = ['unknown-module-in-net', 'weight-zero', 'weight-negative', 'area-zero', 'area-negative', 'soft-without-area',
+DEFECTS = ['hard-overlap-first-last', 'hard-overlap-last-two', 'unknown-module-in-net', 'weight-zero', 'weight-negative', 'area-zero', 'area-negative', 'soft-without-area',
            'hard-with-area', 'hard-without-rectangles', 'hard-overlapping-rectangles', 'unknown-attribute', 'invalid-name',
            'one-pin-net', 'one-pin-net-weighted', 'rect-width-zero', 'rect-height-negative', 'region-area-zero']
 
@@ -94,6 +94,16 @@ def inject(I, tree, specs, defect, pos):
         ov = I.real('ov', 0.05, 0.09)
         # a second rectangle overlapping the first one by a strip of width ov and height >= 1 (first rect width >= 0.1)
         mods[m]['rectangles'] = [r, [r[0] + r[2] / 2 - ov + 0.5, r[1], 1.0, r[3]]]
+    elif defect in ('hard-overlap-first-last', 'hard-overlap-last-two'):
+        # three rectangles; the overlapping pair is (first, last) resp. (second, third), the remaining one is far away
+        m = nth([n for n in names if (mods[n].get('hard') or mods[n].get('fixed')) and 'rectangles' in mods[n]])
+        if m is None:
+            return False
+        r = mods[m]['rectangles'][0]
+        ov = I.real('ov', 0.05, 0.09)
+        over = [r[0] + r[2] / 2 - ov + 0.5, r[1], 1.0, r[3]]
+        far = [r[0], r[1] + 20.0, r[2], r[3]]
+        mods[m]['rectangles'] = [r, far, over] if defect == 'hard-overlap-first-last' else [far, r, over]
     elif defect == 'unknown-attribute':
         m = nth(names)
         if m is None:
@@ -185,10 +195,16 @@ def body(I, case):
         allr += list(m.rectangles)
         if s['fixed']:
             fixedr += list(m.rectangles)
-    I.prove('all-rectangles-list', len(n.rectangles) == len(allr) and all(a is b for a, b in zip(n.rectangles, allr)) and
-            n.num_rectangles == len(allr))
+    # the same rectangle objects, module by module (the order inside a module is the loader's business: the trunk is moved first)
+    def same_objects(xs, ys):
+        return len(xs) == len(ys) and sorted(map(id, xs)) == sorted(map(id, ys))
+
+    def module_of(r):
+        return [i for i, m in enumerate(n.modules) if any(r is q for q in m.rectangles)][0]
+    I.prove('all-rectangles-list', same_objects(n.rectangles, allr) and n.num_rectangles == len(allr) and
+            [module_of(r) for r in n.rectangles] == sorted(module_of(r) for r in n.rectangles))
     fr = n.fixed_rectangles()
-    I.prove('fixed-rectangles-list', len(fr) == len(fixedr) and all(a is b for a, b in zip(fr, fixedr)) and all(r.fixed for r in fr) and
+    I.prove('fixed-rectangles-list', same_objects(fr, fixedr) and all(r.fixed for r in fr) and
             all(not r.fixed for r in allr if not any(r is f for f in fixedr)))
     # wire length: per net weight * sum of distances to the mean of the member centres
     have_centres = all(m.center is not None for e in n.edges for m in e.modules)
